@@ -30,6 +30,8 @@ Record frame := mkf {
   f_neg : bool;        (* 64-bit length with the top bit set *)
   f_reply : bool;      (* control frame whose handling sends one frame (close with an invalid code) *)
   f_clean : bool;      (* final data frame: the message handler calls CloseAndClean *)
+  f_mpanic : bool;     (* the handler of this frame's message / control payload panics *)
+  f_fpanic : bool;     (* the data frame handler panics on this frame *)
   f_infl : inflate;    (* compressed final frame: outcome of the inflate *)
   f_ilen : N;          (* ... length of the inflated message *)
   f_grow : nat         (* ... how often readAll appended to its buffer *)
@@ -41,7 +43,8 @@ Record wcfg := mkcfg {
   wfh : bool;           (* a data frame handler is installed *)
   wzip : bool;          (* enableCompression: RSV1 allowed *)
   wlimit : N;           (* MessageLengthLimit (0: none) *)
-  wrlimit : N           (* Engine.ReadLimit (0: none) *)
+  wrlimit : N;          (* Engine.ReadLimit (0: none) *)
+  wrecov : bool         (* the executor that runs the handlers (Engine.SyncCall / Conn.Execute) recovers their panics *)
 }.
 
 Definition obuf := option (nat * N).
@@ -54,7 +57,8 @@ Record wst := mkw {
   expecting : bool;      (* Conn.expectingFragments *)
   wclosed : bool;        (* Conn.closed *)
   pending : list frame;  (* the frames whose bytes are not consumed yet; the cache holds a prefix of their bytes *)
-  given : list nat;      (* ghost: buffers left to the application (ReleasePayload off) *)
+  given : list nat;      (* ghost: buffers the library does not hold any more and did not free: left to the application
+                            (ReleasePayload off), or dropped when a handler's panic escaped into Parse's recover *)
   wa : ast
 }.
 
@@ -90,22 +94,25 @@ Definition close_clean (w : wst) : wst :=
 (* after the handler: Free with ReleasePayload, else the application keeps the buffer *)
 Definition dispose (c : wcfg) (w : wst) (id : nat) : wst := if wrelease c then w_free w id else give w id.
 
-(* handleMessage for a data message (b = None: empty message, nothing to wrelease) *)
-Definition deliver_msg (c : wcfg) (w : wst) (b : obuf) (clean : bool) : wst :=
+(* handleMessage for a data message (b = None: empty message, nothing to release).  A panic of the handler is either
+   swallowed by the executor (then everything goes on as if the handler had returned) or escapes into Parse's recover
+   (second component); the deferred release of the payload happens in both cases. *)
+Definition deliver_msg (c : wcfg) (w : wst) (b : obuf) (clean pan : bool) : wst * bool :=
   let called := negb (wclosed w) in
-  let w := match b with Some (id, n) => if called then w_use w id n else w | None => w end in
-  let w := if called && clean then close_clean w else w in
-  match b with Some (id, _) => dispose c w id | None => w end.
+  let w1 := match b with Some (id, n) => if called then w_use w id n else w | None => w end in
+  let w2 := if called && clean && negb pan then close_clean w1 else w1 in
+  (match b with Some (id, _) => dispose c w2 id | None => w2 end, called && pan && negb (wrecov c)).
 
-Definition deliver_frame (c : wcfg) (w : wst) (b : obuf) : wst :=
+Definition deliver_frame (c : wcfg) (w : wst) (b : obuf) (pan : bool) : wst * bool :=
   match b with
-  | Some (id, n) => dispose c (if wclosed w then w else w_use w id n) id
-  | None => w
+  | Some (id, n) => (dispose c (if wclosed w then w else w_use w id n) id, negb (wclosed w) && pan && negb (wrecov c))
+  | None => (w, false)
   end.
 
-Definition deliver_ctl (c : wcfg) (w : wst) (b : obuf) (reply : bool) : wst :=
+(* a close frame with an invalid code is answered and its handler is not called *)
+Definition deliver_ctl (c : wcfg) (w : wst) (b : obuf) (reply pan : bool) : wst * bool :=
   let w := if reply then send_frame w else w in
-  match b with Some (id, _) => dispose c w id | None => w end.
+  (match b with Some (id, _) => dispose c w id | None => w end, pan && negb reply && negb (wrecov c)).
 
 Inductive pres := POk | PErr | PClosed | PTooLong.
 
@@ -144,6 +151,10 @@ Definition add_payload (w : wst) (pl : N) : wst :=
 (* the recover path of Parse: the cache is released *)
 Definition recover (w : wst) : wst :=
   match cache w with Some (id, _) => set_cache (w_free w id) None | None => w end.
+
+(* a handler's panic escaped: Parse's recover frees the cache; a frame copy not handed over yet is dropped *)
+Definition escape (w : wst) (fr : obuf) : wst :=
+  let w := recover w in match fr with Some (id, _) => give w id | None => w end.
 
 (* inflate of the taken message mid (c.message is nil by now); fr is the frame copy.
    error flag: 0 = fine, 1 = error, 2 = error after which the receive path sends a close frame *)
@@ -206,13 +217,17 @@ Fixpoint parse_loop (c : wcfg) (w : wst) (fs : list frame) : wst * pres :=
         if e =? 1 then (w1, PErr) else
         if e =? 2 then (send_frame w1, PErr) else
         let w2 := set_pending (consume w1 total) rest in
-        let w3 := if got then deliver_msg c w2 m (f_clean f) else w2 in
-        let w4 := deliver_frame c w3 fr in
+        let '(w3, esc1) := if got then deliver_msg c w2 m (f_clean f) (f_mpanic f) else (w2, false) in
+        if esc1 then (escape w3 fr, PErr) else
+        let '(w4, esc2) := deliver_frame c w3 fr (f_fpanic f) in
+        if esc2 then (recover w4, PErr) else
         parse_loop c w4 rest
       else
         let '(w1, pm) := if 0 <? f_plen f then let '(w', id) := w_malloc w in (w', Some (id, f_plen f)) else (w, None) in
         let w2 := set_pending (consume w1 total) rest in
-        parse_loop c (deliver_ctl c w2 pm (f_reply f)) rest
+        let '(w3, esc) := deliver_ctl c w2 pm (f_reply f) (f_mpanic f) in
+        if esc then (recover w3, PErr) else
+        parse_loop c w3 rest
   end.
 
 (* Parse(data), len(data) = n *)
